@@ -191,6 +191,7 @@ type NodeEnv struct {
 	OpRepo *oprepo.BaseOperationRepo
 
 	sharedBoard storage.Storage
+	states      []*state.LevelDBState // every LevelDB handle opened for this node (closed by Close)
 }
 
 func NewNodeEnv(base, user string) *NodeEnv {
@@ -212,6 +213,7 @@ func (e *NodeEnv) open(stateDir string) {
 		panic(err)
 	}
 	e.St, e.Board = st, board
+	e.states = append(e.states, st)
 	if e.Ctl == nil {
 		e.Ctl = &crashCtl{}
 	}
@@ -324,6 +326,7 @@ func (e *NodeEnv) Restart() {
 		panic(err)
 	}
 	e.St = st
+	e.states = append(e.states, st)
 	e.Node = e.buildNode(crashState{st, e.Ctl}, crashBoard{e.Board, e.Ctl})
 }
 
@@ -404,7 +407,19 @@ func tryCopyDir(src, dst string) bool {
 	return true
 }
 
-func (e *NodeEnv) Close() { os.RemoveAll(e.Dir) }
+func (e *NodeEnv) Close() {
+	for _, st := range e.states {
+		st.VerifClose()
+	}
+	e.states = nil
+	if e.Board != nil {
+		e.Board.Close()
+	}
+	if e.sharedBoard != nil && e.sharedBoard != e.Board {
+		e.sharedBoard.Close()
+	}
+	os.RemoveAll(e.Dir)
+}
 
 // ---- projection of the durable state ----
 func opPayloadProj(typ string, payload []byte) string {
